@@ -6,6 +6,7 @@ Units (model Model/IdpBuild.v vs implementation):
   serialise / xml_parse          ElementTree.tostring / fromstring on generated trees, spliced-in raw values, malformed text
   strip / policy_get             str.strip ; Policy.get_lifetime / get_name_form over policy shapes
   from_local / list_to_local     attribute_converter.from_local / to_local over the real converters
+  *_any_converters               the same over synthetic converter lists (several converters registered for one name format)
   attr_statement_xml             the AttributeStatement subtree of the message Server.create_authn_response builds
   wire                           which elements of the built message are signed / encrypted
   roundtrip                      Server.create_authn_response -> binding -> Saml2Client.parse_authn_request_response
@@ -28,8 +29,8 @@ from core import Exn, cstr, cbool, cz, copt, clist
 IMPORTS = "Model.Status Model.Response Model.CertSelect Model.IdpBuild Gen.AttrMaps"
 
 CLAIM = {
-    "text": "Coq theorems (Props/C08.v, all closed) about an executable model of IdP build + SP read (Model/IdpBuild.v over Model/Response.v, Model/CertSelect.v and the attribute maps regenerated from /repo). TEXT level, for ALL strings: what ElementTree writes for character data is read back as the same string except that CR LF / CR arrive as LF (exactly that), attribute values are read back exactly (CR LF TAB included); the written forms contain no '<', no '>', (attributes) no double quote, and every '&' starts a reference the writer emitted. TREE level, for ALL well-formed trees of any depth: a one-pass XML reader (tokenizer + tree builder, defined in Gallina) satisfies parse(serialise t) = t (modulo that end-of-line rule), hence the structure read back - tags, nesting, attribute names - never depends on a text or attribute value; instantiated for the Issuer / NameID / AuthnContext / AttributeStatement the IdP builds, whose structure is a function of the SHAPE of the identity only, and IdP attributes -> XML text -> reader -> harvested attributes is the identity. ATTRIBUTES: str.strip only removes white space at the two ends; for any converters, every identity whose keys the converters know and report under different names is read by the SP as exactly the asserted values, in order, trimmed, under those names; over the shipped maps (kernel-checked on every run) every local name is reported under itself or one of 18 listed aliases, except emailAddress / upn under name_form unspecified (known finding). PIPELINE: for IdP and SP configured from each other's generated metadata, every identity, name-id, authn context, lifetime, in-response-to and every sign_response x sign_assertion x encrypt_assertion setting (arguments or configured defaults, SP with or without an encryption certificate) that satisfies C02's rule on the built message is accepted inside its validity window and name-id, attributes, in-response-to, issuer, authn context and session expiry read by the application equal what was asserted. Tie to the code on every run: unit-wise correspondence (escaping and reading vs ElementTree / defusedxml, serialiser and reader on generated and on raw-spliced documents, str.strip, Policy.get, from_local / to_local, the value-carrying XML of the built message, which elements are signed / encrypted, the whole IdP -> POST / Redirect / SOAP -> SP path) and an implementation-level oracle stating the property on every end-to-end run.",
-    "note": "Expects /repo + proposed_fix/C08-1.diff (sign the assertion when encryption was asked for but the SP has no encryption certificate); before it the statement is refuted (C08_roundtrip_before_fix_refuted) and the check alarms. Only TESTED, not proved: that the model equals the Python (correspondence, exhaustive only over the sign x sign x encrypt x requirement x certificate product and the map names), the stdlib XML parser / ElementTree themselves (the Gallina reader is compared with defusedxml on every run; comments, PIs, CDATA, DTDs, namespaces declarations, single-quoted attributes and mixed content are outside the modelled subset), bindings (C14), the stand-in tool, real cryptography (symbolic: a signature by the IdP's key verifies under the certificate in its metadata). Known findings: an empty eduPersonTargetedID value is read as a dictionary; emailAddress / upn are lost under name_form unspecified. Not covered: PEFIM / encrypted advice, encrypted attributes, name-ids built from userid + NameIDPolicy (C18), non-string identity values, encrypt_assertion_self_contained=False without sign_assertion (the IdP raises EncryptError: nothing is built). CR and C0 control characters in values are outside the listed value classes: run and counted, not asserted.",
+    "text": "Coq theorems (Props/C08.v, all closed) about an executable model of IdP build + SP read (Model/IdpBuild.v over Model/Response.v, Model/CertSelect.v and the attribute maps regenerated from /repo). TEXT level, for ALL strings: what ElementTree writes for character data is read back as the same string except that CR LF / CR arrive as LF (exactly that), attribute values are read back exactly (CR LF TAB included); the written forms contain no '<', no '>', (attributes) no double quote, and every '&' starts a reference the writer emitted. TREE level, for ALL well-formed trees of any depth: a one-pass XML reader (tokenizer + tree builder, defined in Gallina) satisfies parse(serialise t) = t (modulo that end-of-line rule), hence the structure read back - tags, nesting, attribute names - never depends on a text or attribute value; instantiated for the Issuer / NameID / AuthnContext / AttributeStatement the IdP builds, whose structure is a function of the SHAPE of the identity only, and IdP attributes -> XML text -> reader -> harvested attributes is the identity. ATTRIBUTES: str.strip only removes white space at the two ends; for any converters (any number of them per name format: the SP asks all converters of the attribute's format in order), every identity whose keys the converters know and report under different names is read by the SP as exactly the asserted values - empty ones included, eduPersonTargetedID included - in order, trimmed, under those names; over the shipped maps (kernel-checked on every run) every map belongs to one of four name formats and, whichever format the policy selects, EVERY local name of the map the IdP converts with is reported under itself or one of 18 listed aliases - no name is lost (C08_name_tables, C08_shipped_key_reported). PIPELINE: for IdP and SP configured from each other's generated metadata, every identity, name-id, authn context, lifetime, in-response-to and every sign_response x sign_assertion x encrypt_assertion setting (arguments or configured defaults, SP with or without an encryption certificate) that satisfies C02's rule on the built message is accepted inside its validity window and name-id, attributes, in-response-to, issuer, authn context and session expiry read by the application equal what was asserted; with the shipped maps on both sides and an identity over the map's names the attributes are read name by name with no further hypothesis than pairwise different reported names (C08_roundtrip_shipped). Tie to the code on every run: unit-wise correspondence (escaping and reading vs ElementTree / defusedxml, serialiser and reader on generated and on raw-spliced documents, str.strip, Policy.get, from_local / to_local over the shipped converters and over synthetic converter lists with several converters per name format, the value-carrying XML of the built message, which elements are signed / encrypted, the whole IdP -> POST / Redirect / SOAP -> SP path) and an implementation-level oracle stating the property on every end-to-end run.",
+    "note": "Expects /repo (which contains the repair C08-1, commit 28208820) + proposed_fix/C08-2.diff (to_local asks every converter registered for a name format, not only the last: emailAddress / upn were lost under name_form unspecified) + proposed_fix/C08-3.diff (an empty eduPersonTargetedID value is read back as '' and not as a NameID dictionary); before them the statements are refuted (C08_roundtrip_before_fix_refuted, C08_name_lost_before_fix_refuted, C08_eptid_empty_before_fix_refuted) and the check alarms (model differs from the code on list_to_local; oracle keys name-lost:unspecified:emailaddress, name-lost:unspecified:upn, eptid-empty-value). Only TESTED, not proved: that the model equals the Python (correspondence, exhaustive only over the sign x sign x encrypt x requirement x certificate product and the map names), the stdlib XML parser / ElementTree themselves (the Gallina reader is compared with defusedxml on every run; comments, PIs, CDATA, DTDs, namespaces declarations, single-quoted attributes and mixed content are outside the modelled subset), bindings (C14), the stand-in tool, real cryptography (symbolic: a signature by the IdP's key verifies under the certificate in its metadata). No known finding is left for C08. Not covered: PEFIM / encrypted advice, encrypted attributes, name-ids built from userid + NameIDPolicy (C18), non-string identity values, encrypt_assertion_self_contained=False without sign_assertion (the IdP raises EncryptError: nothing is built). CR and C0 control characters in values are outside the listed value classes: run and counted, not asserted.",
     "technique": "machine-checked proof (Coq: induction over arbitrary strings, trees, identities; kernel-decided regenerated tables) + correspondence with the running code + end-to-end oracle",
 }
 TRUSTED = [
@@ -41,13 +42,13 @@ TRUSTED = [
 ASSUMPTIONS = [
     "setting (Proofs/IdpBuildFlow_lemmas.v): SP metadata store = the IdP's generated metadata; entity ids carry no surrounding white space; the certificate encrypted for is one the SP holds the key of; destination is one of the SP's endpoints for the binding (no valid_destination_regex, no conv_info); the request is outstanding or unsolicited responses are allowed; an authn class_ref or authority is given; IdP clock <= SP clock + slack, SP clock <= IdP clock + lifetime + slack and <= IssueInstant + 1 day + slack, session_not_on_or_after (if given) not passed",
     "identity values, name-id and context strings are XML-legal (Char production) for the text theorems; exact value equality needs no CR; attribute NAMES are ElementTree-safe by construction (the tags are constants)",
-    "C08_attributes_exact: keys known to the IdP-side converter, reported under pairwise different local names, eduPersonTargetedID values non-empty (eptid_ok)",
+    "C08_attributes_exact / C08_roundtrip_exact (ANY converters): keys known to the IdP-side converter, reported under pairwise different local names, and the eduPersonTargetedID OID reported under the name eduPersonTargetedID (eptid_named: a condition on the tables, decided for the shipped maps by C08_name_tables / C08_shipped_tables); C08_roundtrip_shipped needs only keys of the selected map and pairwise different reported names",
 ]
 RULE = ("exhaustive: sign_response x sign_assertion x encrypt_assertion x 8 SP requirement settings x SP with/without encryption certificate (each IdP/SP pair "
-        "answers all 8 flag settings in a row); 27 configured-default settings x 3 argument patterns; every local name of every shipped map per name format; "
+        "answers all 8 flag settings in a row); 27 configured-default settings x 3 argument patterns; every local name of every shipped map per name format; every extension-element shape (NameID / other element, empty / blank / text) under the eduPersonTargetedID names and another name; "
         "str.strip on all str.isspace code points and neighbours. Random (seeded): identities over map names in all spellings / aliases / names of other maps / "
         "unknown names, values from XML-special, look-alike markup, quotes, CDATA end, entity-looking, non-ASCII incl. astral, padded, inner white space, 20000-char, "
-        "1500-valued, empty; NameID formats; contexts; 10 policy shapes; bindings POST/Redirect/SOAP; 6 signature x 6 digest algorithms; SP clock at window edges; "
+        "1500-valued, empty; synthetic converter lists (1-4 converters, mostly sharing one name format, overlapping wire / local names); NameID formats; contexts; 10 policy shapes; bindings POST/Redirect/SOAP; 6 signature x 6 digest algorithms; SP clock at window edges; "
         "long-lived IdP/SP pools. Non-trivial = end-to-end case inside the statement, or string/tree with at least one character the writer must escape; distinct by content.")
 
 
@@ -388,7 +389,7 @@ def attr_obj_val(a):
     for v in a.attribute_value:
         if v.extension_elements:
             e = v.extension_elements[0]
-            vals.append([e.attributes.get("Format", ""), e.text or ""])
+            vals.append({e.tag: e.text or ""} if e.tag != "NameID" else [e.attributes.get("Format", ""), e.text or ""])
         else:
             vals.append(v.text or "")
     return [a.name, a.name_format, a.friendly_name, vals]
@@ -398,7 +399,8 @@ def attr_spec_coq(sp):
     name, nf, fr, vals = sp
     return "{| at_name := %s; at_format := %s; at_friendly := %s; at_values := %s |}" % (
         cstr(name), copt(nf, cstr), copt(fr, cstr),
-        clist(vals, lambda v: "(AText %s)" % cstr(v) if isinstance(v, str) else "(ANameID %s %s)" % (cstr(v[0]), cstr(v[1]))))
+        clist(vals, lambda v: "(AText %s)" % cstr(v) if isinstance(v, str) else "(AOther %s)" % cstr(v["Audience"]) if isinstance(v, dict)
+              else "(ANameID %s %s)" % (cstr(v[0]), cstr(v[1]))))
 
 
 def attr_spec_obj(sp):
@@ -408,6 +410,9 @@ def attr_spec_obj(sp):
         if isinstance(v, str):
             av = saml.AttributeValue()
             av.set_text(v)
+        elif isinstance(v, dict):
+            # an extension element of the assertion namespace that is NOT a NameID
+            av = saml.AttributeValue(extension_elements=[ExtensionElement("Audience", saml.NAMESPACE, text=v["Audience"])])
         else:
             attrs = {"Format": v[0]} if v[0] else {}
             av = saml.AttributeValue(extension_elements=[ExtensionElement("NameID", saml.NAMESPACE, attributes=attrs, text=v[1])])
@@ -506,13 +511,26 @@ def unit_attrs(ctx):
     names = [EPTID_OID, "urn:oid:2.5.4.42", " urn:oid:2.5.4.42 ", "URN:OID:2.5.4.42", "urn:oid:2.5.4.4", "urn:mace:dir:attribute-def:cn", "urn:mace:dir:attribute-def:eduPersonTargetedID",
              "http://schemas.xmlsoap.org/claims/upn", "http://schemas.xmlsoap.org/claims/commonname", "http://schemas.xmlsoap.org/ws/2005/05/identity/claims/upn",
              "foo", " Foo ", "", "givenName"]
+    # every extension-element shape under the eduPersonTargetedID names and under another name: a NameID is unwrapped to its
+    # (possibly empty) text only under the local name eduPersonTargetedID; any other element only when it has text
+    ext_vals = [["urn:oasis:names:tc:SAML:2.0:nameid-format:persistent", ""], ["", ""], ["f", "  "], ["", " abc "], {"Audience": ""}, {"Audience": "  "},
+                {"Audience": " p "}, "", "  ", " t "]
+    for name, nf, allow in itertools.product([EPTID_OID, "urn:mace:dir:attribute-def:eduPersonTargetedID", "urn:oid:2.5.4.42", "eduPersonTargetedID"],
+                                             [NF_URI, NF_BASIC, None], [False, True]):
+        specs = [[name, nf, None, list(ext_vals)]]
+        ava = AC.to_local(acs, through_xml([attr_spec_obj(sp) for sp in specs]), allow)
+        cl.append(dict(id=len(cl), coq="(%s, %s)" % (cbool(allow), clist(specs, attr_spec_coq)), impl=ava_val(ava),
+                       show=dict(attributes=specs, allow_unknown=allow, read=ava_val(ava))))
     for i in range(200 if ctx.quick else 4000):
         specs = []
         for _ in range(rng.randint(1, 4)):
             vs = []
             for _ in range(rng.choice([0, 1, 1, 2, 3])):
-                if rng.random() < 0.25:
+                r = rng.random()
+                if r < 0.25:
                     vs.append([rng.choice(["urn:oasis:names:tc:SAML:2.0:nameid-format:persistent", "", "f"]), rng.choice(["", "abc", " p ", "  "] + vals[:20])])
+                elif r < 0.37:
+                    vs.append({"Audience": rng.choice(["", "abc", " p ", "  "] + vals[:20])})
                 else:
                     vs.append(rng.choice(vals))
             specs.append([rng.choice(names), rng.choice(NAME_FORMATS + [None, "urn:example:other"]), rng.choice([None, "fr", "givenName"]), vs])
@@ -521,6 +539,56 @@ def unit_attrs(ctx):
         ava = AC.to_local(acs, parsed, allow)
         cl.append(dict(id=len(cl), coq="(%s, %s)" % (cbool(allow), clist(specs, attr_spec_coq)), impl=ava_val(ava),
                        show=dict(attributes=specs, allow_unknown=allow, read=ava_val(ava))))
+    # ---- synthetic converter lists (the theorems quantify over ANY converters): several converters registered for ONE name
+    # format, knowing overlapping / disjoint wire names under different local names - which converter answers, in which order
+    fmts = [NF_UNSPEC, NF_URI, "urn:example:fmt"]
+    wires = ["urn:w:a", "urn:w:b", "URN:W:C", EPTID_OID, "w d"]
+    locs = ["a", "b", "C", "eduPersonTargetedID", "alt", "Alt2"]
+    cu, cuf = [], []
+    for i in range(120 if ctx.quick else 3000):
+        maps = []
+        shared = rng.choice(fmts)
+        for _ in range(rng.randint(1, 4)):
+            nf = shared if rng.random() < 0.7 else rng.choice(fmts)
+            fro = dict((w, rng.choice(locs)) for w in rng.sample(wires, rng.randint(0, 4)))
+            to = dict((l, rng.choice(wires)) for l in rng.sample(locs, rng.randint(0, 4)))
+            maps.append((nf, list(to.items()), list(fro.items())))
+        cacs = []
+        for nf, to, fro in maps:
+            ac = AC.AttributeConverter()
+            ac.from_dict({"identifier": nf, "to": dict(to), "fro": dict(fro)})
+            cacs.append(ac)
+        maps_coq = clist(maps, lambda m: "(%s, %s, %s)" % (cstr(m[0]), clist(m[1], lambda kv: "(%s, %s)" % (cstr(kv[0]), cstr(kv[1]))),
+                                                            clist(m[2], lambda kv: "(%s, %s)" % (cstr(kv[0]), cstr(kv[1])))))
+        specs = []
+        if rng.random() < 0.5:
+            # what an IdP holding the same converters sends
+            ident = dict((rng.choice(case_variants(rng, rng.choice(locs + ["zz"]))), [rng.choice(["v", " w ", "", "  "]) for _ in range(rng.randint(0, 3))])
+                         for _ in range(rng.randint(1, 4)))
+            nfq = rng.choice([shared, shared, rng.choice(fmts)])
+            got = AC.from_local(cacs, copy.deepcopy(ident), nfq)
+            cuf.append(dict(id=len(cuf), coq="(%s, %s, %s)" % (maps_coq, ident_coq(ident), cstr(nfq)),
+                            impl=None if got is None else [attr_obj_val(a) for a in got], show=dict(maps=maps, identity=ident, name_format=nfq)))
+            specs = [attr_obj_val(a) for a in got] if got else []
+        for _ in range(rng.randint(0 if specs else 1, 3)):
+            vs = [[rng.choice(["urn:oasis:names:tc:SAML:2.0:nameid-format:persistent", ""]), rng.choice(["", "abc", " p ", "  "])] if rng.random() < 0.3
+                  else {"Audience": rng.choice(["", "abc", " p ", "  "])} if rng.random() < 0.15
+                  else rng.choice(["v", " w ", "", "é<&"]) for _ in range(rng.choice([0, 1, 2]))]
+            specs.append([rng.choice(case_variants(rng, rng.choice(wires)) + [" urn:w:a ", "zz"]), rng.choice([shared, shared] + fmts + [None, "urn:example:other"]), rng.choice([None, "fr"]), vs])
+        allow = rng.random() < 0.5
+        ava = AC.to_local(cacs, through_xml([attr_spec_obj(sp) for sp in specs]), allow)
+        cu.append(dict(id=len(cu), coq="(%s, %s, %s)" % (maps_coq, cbool(allow), clist(specs, attr_spec_coq)), impl=ava_val(ava),
+                       show=dict(maps=maps, attributes=specs, allow_unknown=allow, read=ava_val(ava))))
+        if len(set(m[0] for m in maps)) < len(maps):
+            ctx.count("list_to_local_any_converters:several converters share a name format")
+            ctx.nontriv(("custom-acs", json.dumps([maps, specs, allow])))
+    MAPS_T = "list (str * list (str * str) * list (str * str))"
+    ctx.correspond("from_local_any_converters", IMPORTS,
+                   "fun p : %s * identity * str => show_attributes (from_local (map from_dict (fst (fst p))) (snd (fst p)) (snd p))" % MAPS_T,
+                   "(%s * identity * str)" % MAPS_T, cuf, shard=60)
+    ctx.correspond("list_to_local_any_converters", IMPORTS,
+                   "fun p : %s * bool * list attribute => show_ava (list_to_local (map from_dict (fst (fst p))) (snd (fst p)) (snd p))" % MAPS_T,
+                   "(%s * bool * list attribute)" % MAPS_T, cu, shard=60)
     ctx.correspond("from_local", IMPORTS, "fun p : identity * str => show_attributes (from_local default_acs (fst p) (snd p))", "(identity * str)", cf, shard=60)
     ctx.correspond("list_to_local", IMPORTS, "fun p : bool * list attribute => show_ava (list_to_local default_acs (fst p) (snd p))", "(bool * list attribute)", cl, shard=60)
 
@@ -1103,9 +1171,10 @@ def oracle(ctx, c, xml, got):
         ctx.count("e2e:attribute names not asserted (unmapped name equal to a wire name)")
         return
     gotd = dict((k, v) for k, v in ava)
-    # the two names the `unspecified` maps lose (known finding): not delivered, or - with allow_unknown_attributes -
-    # delivered under the claims URL instead of the local name; reported under their own key, then left out of the comparison
-    lost = [ik for ik in c["identity"] if (nf, ik.lower()) in KNOWN_LOST]
+    # the two names the `unspecified` maps lost before proposed_fix/C08-2 (not delivered, or - with allow_unknown_attributes -
+    # delivered under the claims URL instead of the local name): should the defect return it is reported under its own key
+    # (no longer a known finding), then left out of the comparison
+    lost = [ik for ik in c["identity"] if (nf, ik.lower()) in FORMERLY_LOST]
     for ik in lost:
         rk = DOCUMENTED_ALIASES.get((nf, ik.lower()), first_maps()[0][nf][ik.lower()])
         if gotd.get(rk) != want.get(rk):
@@ -1125,7 +1194,7 @@ def oracle(ctx, c, xml, got):
     ctx.nontriv(("e2e", json.dumps(c, sort_keys=True, default=str)))
 
 
-KNOWN_LOST = {(NF_UNSPEC, "emailaddress"), (NF_UNSPEC, "upn")}
+FORMERLY_LOST = {(NF_UNSPEC, "emailaddress"), (NF_UNSPEC, "upn")}
 
 
 M_E2E = ("fun x : idp * sp_md * sp * args => match x with (i, m, s, a) => "
